@@ -139,9 +139,9 @@ let run_case op t =
       let n = next_z t in let o = next_str t in let a = next_z t in let b = next_z t in
       (match o with
        (* compile-time forms on a span of dynamic extent (fix b24e9dc): the same guards, template arguments in the text *)
-       | "tfirst" -> (lege (span_first n a) "span.hpp" "Count_<=_size()", sp (pre_count n (u a)))
-       | "tlast" -> (lege (span_last n a) "span.hpp" "Count_<=_size()", sp (pre_count n (u a)))
-       | "tsub" -> (by_site (span_subspan_site n a b) "span.hpp" "Offset_<=_size()" "Count_!=_dynamic_extent_?_(Count_<=_size()_-_Offset)_:_true",
+       | "tfirst" -> (lege (span_tfirst n a) "span.hpp" "Count_<=_size()", sp (pre_count n (u a)))
+       | "tlast" -> (lege (span_tlast n a) "span.hpp" "Count_<=_size()", sp (pre_count n (u a)))
+       | "tsub" -> (by_site (span_tsubspan_site n a b) "span.hpp" "Offset_<=_size()" "Count_!=_dynamic_extent_?_(Count_<=_size()_-_Offset)_:_true",
                     sp (pre_span_subspan n (u a) (u b)))
        | "front" -> (lege (span_front n) "span.hpp" "not_empty()", sp (pre_nonempty n))
        | "back" -> (lege (span_back n) "span.hpp" "not_empty()", sp (pre_nonempty n))
@@ -150,6 +150,10 @@ let run_case op t =
        | "last" -> (lege (span_last n a) "span.hpp" "count_<=_size()", sp (pre_count n (u a)))
        | _ -> (by_site (span_subspan_site n a b) "span.hpp" "offset_<=_size()" "count_!=_dynamic_extent_?_(count_<=_size()_-_offset)_:_true",
                sp (pre_span_subspan n (u a) (u b))))
+  | "spanctor" ->
+      let ext = next_z t in let which = next_str t in let count = next_z t in
+      let e = (match which with "ptr" -> "count" | "rng" | "dynl" -> "ranges::size(r)" | _ -> "source.size()") in
+      (lege (span_ctor_count ext count) "span.hpp" ("extent_==_dynamic_extent_or_" ^ e ^ "_==_extent"), sp (pre_span_ctor (u ext) (u count)))
   | "sv" ->
       let n = next_z t in let o = next_str t in let a = next_z t in let b = next_z t in
       let f = "basic_string_view.hpp" in
@@ -353,7 +357,7 @@ let run_case op t =
         let m = Big.shift_left Big.one bits in
         let b = Big.erem (big_of_z z) m in
         z_of_big (if signed && Big.geq b (Big.shift_left Big.one (bits - 1)) then Big.sub b m else b) in
-      let v = (match ty with "int" -> wrap 32 true v | "long" -> wrap 64 true v | "uint" -> wrap 32 false v | _ -> wrap 64 false v) in
+      let v = (match ty with "int" -> wrap 32 true v | "long" | "llong" -> wrap 64 true v | "uint" -> wrap 32 false v | _ -> wrap 64 false v) in
       (match to_string_guard cap v with
        | Some ok -> (lege ok "to_string.hpp" "res.error_==_etl::strings::from_integer_error::none", sp (pre_to_string cap v))
        | None -> ("fuel", sp (pre_to_string cap v)))
